@@ -52,7 +52,11 @@ IMPORTS = ("from typedpy import (Structure, ImmutableStructure, Integer, String,
            "Tuple, Map, Anything, Enum)\n")
 
 ROLES = ["required", "populated", "container", "none", "absent", "default"]
-EXTRA_KEYS = [("zz_extra", "undeclared"), ("_zz", "sunder")]
+# undeclared / sunder names, and the two bookkeeping attributes every instance carries: reachable through the
+# ordinary attribute protocol (x._instantiated = ..., del x["_instantiated"]), so part of "attribute assignment or
+# deletion"; only direct __dict__ / object.__setattr__ access is excluded by the statement
+EXTRA_KEYS = [("zz_extra", "undeclared"), ("_zz", "sunder"), ("_instantiated", "_instantiated"), ("_none_fields", "_none_fields")]
+INTERNAL_ROLES = ("_instantiated", "_none_fields")
 VALUE_CLASSES = ["none", "undefined", "same", "other", "invalid"]
 PROVENANCES = ["ctor", "pickle", "copy", "deepcopy", "deserialize", "clone"]
 
@@ -166,7 +170,7 @@ def _norm(v):
 
 
 def names_of(spec):
-    return [f for f, _, _ in spec["fields"]] + [k for k, _ in EXTRA_KEYS]
+    return [f for f, _, _ in spec["fields"]] + [k for k, r in EXTRA_KEYS if r not in INTERNAL_ROLES]
 
 
 def snapshot(x, twin, spec):
@@ -298,6 +302,21 @@ def run_single(spec, prov, rep, probes):
         rep.stat("inst-ops", "provenance:%s" % prov)
         if op[0] == "setattr" and prov == "ctor":
             probes.append((spec, op, role, exn, changed, has))
+        if not changed:
+            # the operation left the observables alone; did it leave the instance REFUSING?  follow it with the
+            # canonical assignment / deletion of the populated field
+            for probe in follow_ups(spec):
+                apply_op(spec, x, probe)
+                snap2 = snapshot(x, twin, spec)
+                if snap2 != snap0:
+                    rep.stat("inst-ops", "follow-up:CHANGED")
+                    findings.append((finding_key(spec, prov, op, role, "") + "/then-" + op_tag(probe),
+                                     "after %s (%s) on an instance (%s) of an immutable %s with options %s, %s changed %s" % (
+                                         describe(op), "raised " + exn if exn else "returned", prov,
+                                         "structure" if spec["ctx"] == "struct" else "field", opt_tag(spec),
+                                         describe(probe), ", ".join(a[0] for a, b in zip(snap0, snap2) if a != b)),
+                                     replay_obj(spec, prov, [op, probe])))
+                    break
         if changed:
             what = "%s on an instance (%s) of an immutable %s with options %s changed %s" % (
                 describe(op), prov, "structure" if spec["ctx"] == "struct" else "field", opt_tag(spec),
@@ -305,6 +324,11 @@ def run_single(spec, prov, rep, probes):
             findings.append((finding_key(spec, prov, op, role, type_of_key(spec, op[1])), what,
                              replay_obj(spec, prov, [op])))
     return findings
+
+
+def follow_ups(spec):
+    pop = [f for f, _, r in spec["fields"] if r == "populated"][0]
+    return [["setattr", pop, "other"], ["delitem", pop]]
 
 
 def describe(op):
@@ -334,12 +358,23 @@ def run_history(spec, prov, rnd, rep, length):
         rep.count("inst-histories", 1, None)
         if snapshot(x, twin, spec) != snap0:
             rep.stat("inst-histories", "CHANGED")
-            # shrink: does the last operation alone suffice?
-            y = obtain(spec, prov)
-            apply_op(spec, y, op)
-            if snapshot(y, twin, spec) != snap0:
-                hist = [op]
-            return [(finding_key(spec, prov, op, role, type_of_key(spec, op[1])) + ("/history" if len(hist) > 1 else ""),
+            # shrink: does the last operation alone suffice?  else one earlier operation followed by the last?
+            def reproduces(h):
+                y = obtain(spec, prov)
+                for o in h:
+                    apply_op(spec, y, o)
+                return snapshot(y, twin, spec) != snap0
+            roles = dict(keys_for(spec, x))
+            key = finding_key(spec, prov, op, role, "") + "/history"
+            if reproduces([op]):
+                hist, key = [op], finding_key(spec, prov, op, role, "")
+            else:
+                for first in hist[:-1]:
+                    if reproduces([first, op]):
+                        hist = [first, op]
+                        key = finding_key(spec, prov, first, roles.get(first[1], "?"), "") + "/then-" + op_tag(op)
+                        break
+            return [(key,
                      "history %s changed an immutable %s (options %s)" % (
                          "; ".join(describe(o) for o in hist), "structure" if spec["ctx"] == "struct" else "field",
                          opt_tag(spec)),
@@ -393,7 +428,7 @@ def run_stream(rep, rnd, tier):
 # ------------------------------------------------------------------ Coq side
 def emit_probe(p):
     spec, op, role, exn, changed, has = p
-    is_field = role not in ("undeclared", "sunder")
+    is_field = role not in ("undeclared", "sunder") + INTERNAL_ROLES
     vclass = {"none": "VNone", "same": "VSame", "other": "VOther"}.get(op[2], "VBad")
     if op[2] == "same" and not has:
         vclass = "VOther"
@@ -404,7 +439,7 @@ def emit_probe(p):
            "p_sunder := %s; p_has := %s; p_val := %s; p_obs := %s; p_valerr := %s |}" % (
                E.blit(spec["ctx"] == "struct"), E.blit(spec["ctx"] == "field"), E.blit(bool(spec["eu"])),
                E.blit(bool(spec["ign"])), E.blit(spec["ap"] is not False), E.blit(is_field),
-               E.blit(role == "required"), E.blit(role == "sunder"), E.blit(bool(has)), vclass, obs,
+               E.blit(role == "required"), E.blit(role in ("sunder",) + INTERNAL_ROLES), E.blit(bool(has)), vclass, obs,
                E.blit(exn == "ValueError"))
 
 
